@@ -1,1 +1,2 @@
 import TrippyVerif.Model.Basic
+import TrippyVerif.Props.C12
